@@ -267,8 +267,8 @@ def _plan(w, t, op, model):
                 t.has_key(k)
     elif name == 'range':
         meth, a, b, xa, xb, how = op[1:7]
-        ka = w.K(a) if a is not None else None
-        kb = w.K(b) if b is not None else None
+        ka = _bound(w, t, a)
+        kb = _bound(w, t, b)
 
         def call():
             r = getattr(t, meth)(ka, kb, xa, xb)
@@ -280,7 +280,7 @@ def _plan(w, t, op, model):
                 if len(r):
                     r[0], r[-1]
     elif name in ('minKey', 'maxKey'):
-        kb = w.K(op[1]) if op[1] is not None else None
+        kb = _bound(w, t, op[1])
 
         def call():
             if kb is None:
@@ -430,6 +430,26 @@ def _plan(w, t, op, model):
         raise ValueError(op)
     p.call = call
     return p
+
+
+def _bound(w, t, tok):
+    """a range bound: None, a key number, or {'edge': i, 'last': bool} = the first / last key of the i-th leaf
+    of the clone (the bounds at which a search has to step to a neighbouring leaf)"""
+    if tok is None:
+        return None
+    if isinstance(tok, dict):
+        if w.is_tree:
+            wk = walker.walk(t, w.is_map, check=False)
+            lvs = [lf.keys for lf in wk.leaves if lf.keys]
+            del wk
+        else:
+            ks = list(t.keys())
+            lvs = [ks] if ks else []
+        if not lvs:
+            return w.K(0)
+        lf = lvs[tok['edge'] % len(lvs)]
+        return lf[-1] if tok.get('last') else lf[0]
+    return w.K(tok)
 
 
 def _run_probe(w, build, op, n, ctx, desc, fault):
